@@ -330,7 +330,8 @@ class _ReadSourceGenerator:
             size += field_type.size
 
         fmt = _optimize_struct_fmt(info)
-        if fmt == "x" or (len(fmt) == 2 and fmt[0].isdigit() and fmt[1] == "x"):
+        needs_data = any("data[" in read for read in reads)
+        if (fmt == "x" or (len(fmt) == 2 and fmt[0].isdigit() and fmt[1] == "x")) and not needs_data:
             unpack = ""
         else:
             unpack = f'data = _struct(cls.cs.endian, "{fmt}").unpack(buf)\n'
